@@ -142,9 +142,10 @@ def run(ctx: Ctx):
             ctx.violation("grid_slice_interp", "node-not-reproduced", "slice at a node does not reproduce the stored sub-grid", case)
     # ---------------- (c) bracketing interpolation on non-decreasing rows with plateaux
     n_rows = 3000 if ctx.thorough else 400
-    B = 8
-    for t in range(0, n_rows, B):
+    for t in range(0, n_rows, 8):
         n = int(rng.integers(2, 12))
+        # batch size: usually 8; regularly exactly the number of nodes (a square batch) and its neighbours
+        B = [8, 8, n, 8, n + 1, max(n - 1, 1), 1, 2][(t // 8) % 8]
         ys = np.sort(rng.uniform(0, 1, n)) + np.arange(n) * 1e-6
         rows, xq = [], []
         for _ in range(B):
@@ -168,7 +169,14 @@ def run(ctx: Ctx):
                 x = float(xs[-1])
             rows.append(xs); xq.append(x)
         rows = np.array(rows); xq = np.array(xq)
-        got = vec_1d_interp(rows, ys, xq)
+        try:
+            got = np.asarray(vec_1d_interp(rows, ys, xq), dtype=np.float64)
+            if got.shape != (B,):
+                raise ValueError(f"result has shape {got.shape} for a batch of {B} rows")
+        except Exception as ex:  # noqa
+            ctx.violation("vec_1d_interp", "raises-on-valid-batch", f"{type(ex).__name__}: {str(ex)[:120]} for a batch of {B} non-decreasing rows with {n} nodes and queries strictly inside the row ranges",
+                          {"batch_rows": B, "nodes": n, "rows": rows.tolist(), "ys": ys.tolist(), "x": xq.tolist()})
+            continue
         o = run_driver([f"vecbatch {B} {n} {fh(rows)} {fh(ys)} {fh(xq)}"])[0]
         plateau = bool((np.diff(rows, axis=1) == 0).any())
         ctx.count("rows_with_plateau" if plateau else "rows_strict", B)
